@@ -209,17 +209,8 @@ def trace_validate(chk: core.Check, lines: list, module: str = "Trace_Traverse",
             fh.write(json.dumps(ln) + "\n")
     cfg = "INIT Init\nNEXT Next\nPOSTCONDITION Done\nCHECK_DEADLOCK FALSE\n"
     r = tlc.run(chk.wd, module, cfg, workers=1, timeout=3000, env={"TRACE_FILE": str(f)})
-    rejected = []
-    for ln in r.stdout.splitlines():
-        if ln.startswith('<<"REJECT"'):
-            rejected.append(int(ln.split(",")[1]))
-    consumed = r.distinct - 1
     chk.note_tlc(f"{module}/{name}", r, "trace-validation")
-    if consumed != len(lines):
-        raise tlc.MachineryError(f"{module}: consumed {consumed} of {len(lines)} lines\n" + r.stdout[-3000:])
-    if not r.ok and not rejected:
-        raise tlc.MachineryError(f"{module} failed without naming a line:\n" + r.stdout[-3000:])
-    return rejected
+    return sorted(tlc.rejected(r, len(lines), module))
 
 
 def run(chk: core.Check):
